@@ -169,6 +169,13 @@ Theorem c19_fmt_refuted :
 Proof. exact fmt_witness. Qed.
 Print Assumptions c19_fmt_refuted.
 
+(* a wrapped metadata value (help text) comes back with a line break in it *)
+Theorem c19_metanl_refuted :
+  answer all_off w_meta_cfg (QReadBack 60 true) = AContent (Ok (view_content (c_view w_meta_cfg))) /\
+  answer q_only_metanl w_meta_cfg (QReadBack 60 true) <> AContent (Ok (view_content (c_view w_meta_cfg))).
+Proof. exact metanl_witness. Qed.
+Print Assumptions c19_metanl_refuted.
+
 (* ---- non-vacuity *)
 
 (* two profiles define sa.k1; the first listed one wins; after re-prioritising the other one wins *)
